@@ -404,12 +404,14 @@ class World:
             # so that the run (not only the record of who was asked) shows it
             d = {"S": "D", "D": "A", "A": "S"}[d]
         self.trace.append(["H", who, ctx.attempt, ctx.klass.name, to_ticks(sleep_s), d])
+        CLOCK.ticks += self.variant.get("hook_cost", 0)      # a handler that takes time (slow-hook scripts only; no model)
         return {"S": SleepDecision.SLEEP, "D": SleepDecision.DEFER, "A": SleepDecision.ABORT}[d]
 
     def bs_common(self, who, ctx, sleep_s):
         idx = self.bss
         self.bss += 1
         self.trace.append(["BS", who, ctx.attempt, to_ticks(sleep_s)])
+        CLOCK.ticks += self.variant.get("hook_cost", 0)
         return idx, nth(self.env["bs_cancel"], self.cur_index(), None)
 
     def before_sleep_sync(self, who, ctx, sleep_s):
@@ -474,6 +476,7 @@ class World:
         idx = self.metrics
         self.metrics += 1
         self.trace.append(["M", event, attempt, to_ticks(sleep_s), self.canon_tags(tags)])
+        CLOCK.ticks += self.variant.get("hook_cost", 0)
         if nth(self.env["metric_raises"], idx, False):
             raise HOOK_EXC[idx % len(HOOK_EXC)]("metric hook failure")
 
